@@ -1431,6 +1431,8 @@ def str_method(ex, st, s, name, args, kwargs, node):
     if name == 'split':
         return st.alloc(ex.c, PyList(s.split(*args)))
     if name == 'join':
+        if args and isinstance(args[0], tuple) and all(isinstance(x, str) for x in args[0]):
+            return s.join(args[0])
         if args and isinstance(args[0], Ref) and isinstance(st.get(args[0]), PyList) and all(isinstance(x, str) for x in st.get(args[0]).items):
             return s.join(st.get(args[0]).items)
         return '<joined>'
@@ -1438,6 +1440,15 @@ def str_method(ex, st, s, name, args, kwargs, node):
         from .engine import _Raise, ExcV
         raise _Raise(st, ExcV('AttributeError', getattr(node, 'lineno', 0)))
     raise Unsupported('str.%s' % name)
+
+
+@model('re.findall')
+def _re_findall(ex, st, args, kwargs, node):
+    """re.findall(pattern, text) for CONCRETE pattern and text: computed with Python's own re (assumed to be what runs)"""
+    import re
+    if len(args) == 2 and all(isinstance(a, str) for a in args) and not kwargs:
+        return st.alloc(ex.c, PyList(list(re.findall(args[0], args[1]))))
+    raise Unsupported('re.findall on symbolic text')
 
 
 def _install_nan():
